@@ -204,7 +204,8 @@ func closedFlagSetBefore(p *core.Prog, cl core.ChanOp) string {
 	if f := flagSetBeforeIn(cl.Fn, cl.Instr, cl.Base); f != "" {
 		return f
 	}
-	if cl.Fn.Parent() != nil {
+	{
+		// closure handed to a lock wrapper, or an unexported helper called (under the lock) by the closer proper
 		sites, complete := core.CallSites(p, cl.Fn)
 		if complete && len(sites) > 0 {
 			res := ""
@@ -213,7 +214,22 @@ func closedFlagSetBefore(p *core.Prog, cl core.ChanOp) string {
 				if s.Outer != nil {
 					at = s.Outer
 				}
-				f := flagSetBeforeIn(at.Parent(), at, cl.Base)
+				base := cl.Base
+				if cl.Fn.Parent() == nil && s.Outer == nil {
+					// plain helper: the object is one of its parameters; name it in the caller
+					base = ""
+					if ci, isCI := s.Instr.(ssa.CallInstruction); isCI {
+						for i, prm := range cl.Fn.Params {
+							if prm.Name() == cl.Base && i < len(ci.Common().Args) {
+								base = core.Path(ci.Common().Args[i])
+							}
+						}
+					}
+					if base == "" {
+						return ""
+					}
+				}
+				f := flagSetBeforeIn(at.Parent(), at, base)
 				if f == "" || res != "" && res != f {
 					return ""
 				}
